@@ -23,7 +23,7 @@ ORACLES = ('store', 'confined', 'gc', 'journal')
 
 def gen_case(seed, tier):
     return history.gen_history(seed, 'c08', max_users=4 if tier == 'thorough' else 3, nops=(3, 24) if tier == 'thorough' else (3, 10), destructive=True, crash_snapshots=True, decoys=True,
-                               foreign_delete=True, reads=False)
+                               foreign_delete=True, reads=False, many=0.08, services=True)
 
 
 def run_case(case):
